@@ -228,6 +228,31 @@ def generate(tier, rng, hist):
                 out += slice_cases(text, hist, corners=rng.chance(0.3))
             else:
                 out.append(case(text, rand_seq(text, rng, hist)))
+    # sizes past the narrow integer types: a column / a line number that does not fit 8 or 16 bits must not be
+    # confused with its low bits (columns 255/256/257 and 65535/65536/65537 of one long line; lines 255.. and 65535..)
+    small_only = quick or globals().get("WIDENED", False)   # the 2^16 sizes cost minutes on the model side: thorough command only
+    for (L, mark) in (((300, 256),) if small_only else ((300, 256), (66000, 65536))):
+        chars = ["a"] * L
+        for k in (3, mark - 2, mark + 5):
+            chars[k] = "é"
+        chars[mark + 9] = "\U0001F44C"
+        line = "".join(chars)
+        text = "x\n" + line + "\nend"
+        reqs = ["g1"]
+        for c in (0, mark - 1, mark, mark + 1, mark + 8, mark + 9, mark + 11, units(line) - 1, units(line)):
+            for sp in (0, 1, 2, 3):
+                if c not in mid_cols(line):
+                    reqs.append("s1:%d:%d" % (c, sp))
+        reqs += ["s1:%d:%d" % (mark - 100, 200), "c", "g2", "g3"]
+        # spans past the narrow types too
+        reqs += ["s1:0:%d" % sp for sp in (mark - 1, mark, mark + 1, units(line) - 1, units(line), units(line) + 1)] + ["s1:3:%d" % (mark - 3), "s1:4:%d" % mark]
+        out.append(case(text, reqs))
+        bump(hist, "long_line_%d" % L)
+    for (n, mark) in (((300, 256),) if small_only else ((300, 256), (66000, 65536))):
+        text = "".join("l%d\n" % (i % 7) for i in range(n))
+        reqs = ["g%d" % i for i in (mark + 1, mark, mark - 1, 0, n - 1, n, n + 1)] + ["c", "s%d:0:2" % mark, "s%d:1:1" % (mark + 1)]
+        out.append(case(text, reqs))
+        bump(hist, "many_lines_%d" % n)
     # malformed stream: byte strings that are not UTF-8 (no SourceView can be built: harness skips, driver marks wf=0)
     for _ in range(20 if quick else 300):
         bs = bytes(rng.choice([0x61, 0x0a, 0x0d, 0x80, 0xc3, 0xe2, 0xf0, 0xff, 0xa9]) for _ in range(rng.range(1, 6)))
